@@ -9,7 +9,7 @@ PROP = "C18"
 
 def kw(rng, i):
     return {"max_requests": rng.choice([0, 1, 1, 2, 3, 5]), "queue_size": None, "policy": rng.choice(["fifo", "random"]),
-            "n_requests": rng.randint(1, 7), "crashes": False, "allow_10": False}
+            "n_requests": rng.randint(1, 7), "crashes": False, "allow_10": False, "worker": rng.choice(["asyncio", "trio"])}
 
 
 def extra(ctx):
